@@ -5,7 +5,7 @@
 set -e
 id=$1; wt=$2
 base=$(git -C "$wt" rev-parse --short HEAD)
-k=3
+k=${3:-3}
 for s in seed1 seed2; do
   src=$wt/$s; dst=/verif/seeded/$id-$k
   if [ -f "$src/patch.diff" ]; then
